@@ -742,6 +742,14 @@ func (l *segment) advance() error {
 func (l *segment) close() error {
 	l.mu.Lock()
 	defer l.mu.Unlock()
+	if l.file == nil {
+		return nil
+	}
+	// Appends taken on the buffered path have been acknowledged but may not
+	// have been written yet.
+	if err := l.flush(); err != nil {
+		return err
+	}
 	if err := l.file.Close(); err != nil {
 		return err
 	}
